@@ -80,6 +80,12 @@ def check(s):
                         else:
                             s.ob("C12.2", f"{con}.arg{i}", ax == NONE, "shared inputs (env, policy, callback, sizes) are broadcast (None)", loc, key="broadcast-axis",
                                  detail=f"{show(a, maxlen=100)} / in_axes[{i}]={show(ax)}")
+                            # what is shared between the environments must not be drawn from a key: a value sampled once per iteration and
+                            # broadcast (a common reset state, common noise) makes the N rollouts depend on each other's randomness source
+                            rnd = [x for x in walk(a) if x == ("param", "key") or (isinstance(x, tuple) and x and x[0] == "call" and isinstance(x[1], tuple)
+                                                                                  and x[1][0] == "global" and x[1][1].startswith("jax.random."))]
+                            s.ob("C12.2", f"{con}.arg{i}", not rnd, "a broadcast (shared) input is not derived from a PRNG key", loc, key="shared-random-input",
+                                 detail=f"{show(a, maxlen=140)}", necessary_for="N parallel collections equal N independent ones: every random draw of a rollout comes from that environment's own key")
     if n_vmaps < 7:
         raise AnalysisError(f"C12.2: only {n_vmaps} vmapped calls found (expected >= 7)")
     # ---------------------------------------------------------------- C12.3
@@ -104,9 +110,11 @@ def check(s):
     if len(hits) < 2:
         raise AnalysisError("C12.3 positive control not flagged: the collective matcher is not armed")
     s.control(f"C12.3 positive control flagged: {[h.what for h in hits]}")
+    # ---------------------------------------------------------------- C12.5 no global JAX configuration is changed by the package
+    check_global_config(s)
     # ---------------------------------------------------------------- C12.4 mapping-valued pytree fields keep their order
     check_mapping_fields(s)
-    for r_, n_ in (("C12.1", 300), ("C12.2", 41), ("C12.3", 16), ("C12.4", 2)):
+    for r_, n_ in (("C12.1", 300), ("C12.2", 41), ("C12.3", 16), ("C12.4", 2), ("C12.5", 50)):
         s.floor(r_, n_)
 
 
@@ -175,3 +183,74 @@ def check_mapping_fields(s):
                  P.loc(ci.module, ci.node), key="plain-dict-pytree-field", detail=f"annotation: {ak}; __init__ stores: {vk}; iterated in {sorted(set(iterated))[:6]}",
                  necessary_for="the same result eagerly, under jit and under vmap (component order of Dict spaces, flatten_sample, samples)")
     s.ob("C12.4", "package", n_fields >= 1, "at least one mapping-valued pytree field was examined (Dict.spaces)", "", key="mapping-fields-found", detail=str(n_fields))
+
+
+JAX_ENV_PREFIXES = ("JAX_", "XLA_")
+
+
+def global_config_hits(P, m):
+    """AST scan of one module: calls of jax.config.update / config.update (the jax one), attribute assignments on jax.config, and writes
+    of JAX_* / XLA_* environment variables. Returns readable hit strings."""
+    import ast
+    hits = []
+    for node in ast.walk(m.tree):
+        if isinstance(node, ast.Call):
+            f = node.func
+            parts = []
+            while isinstance(f, ast.Attribute):
+                parts.append(f.attr)
+                f = f.value
+            if isinstance(f, ast.Name):
+                q = P.resolve_name(m, f.id, list(reversed(parts))) or ""
+                if q in ("jax.config.update", "jax._src.config.update", "jax.config.config.update") or (q.startswith("jax.") and q.endswith(".config.update")):
+                    arg = ast.unparse(node.args[0]) if node.args else "?"
+                    hits.append(f"line {node.lineno}: jax.config.update({arg}, ...)")
+                if q in ("os.putenv", "os.environ.setdefault", "os.environ.update") or (q == "os.environ.__setitem__"):
+                    txt = ast.unparse(node)
+                    if any(pfx in txt for pfx in JAX_ENV_PREFIXES):
+                        hits.append(f"line {node.lineno}: {txt[:80]}")
+        if isinstance(node, (ast.Assign, ast.AugAssign)):
+            for t in (node.targets if isinstance(node, ast.Assign) else [node.target]):
+                if isinstance(t, ast.Attribute):
+                    base = t.value
+                    parts = [t.attr]
+                    while isinstance(base, ast.Attribute):
+                        parts.append(base.attr)
+                        base = base.value
+                    if isinstance(base, ast.Name):
+                        q = P.resolve_name(m, base.id, list(reversed(parts))) or ""
+                        if q.startswith("jax.config."):
+                            hits.append(f"line {node.lineno}: {ast.unparse(t)} = ...")
+                if isinstance(t, ast.Subscript) and ast.unparse(t.value).endswith("environ"):
+                    key = ast.unparse(t.slice)
+                    if any(pfx in key for pfx in JAX_ENV_PREFIXES):
+                        hits.append(f"line {node.lineno}: os.environ[{key}] = ...")
+    return hits
+
+
+def check_global_config(s, rule="C12.5"):
+    """C12.5: importing or using lerax changes no process-wide JAX setting. The default PRNG implementation (`rbg` is not
+    vmap-invariant: vmap(f)(keys)[i] != f(keys[i])), x64 mode, matmul precision, rank promotion ... all alter what eager, jit and
+    vmapped evaluation return for the same arguments, for the user's own code as well."""
+    import ast
+    P = s.prog
+    n = 0
+    for m in sorted(P.modules.values(), key=lambda m_: m_.name):
+        n += 1
+        hits = global_config_hits(P, m)
+        s.ob(rule, m.name.replace("lerax.", "") or "lerax", not hits, "the module changes no global JAX configuration (jax.config.update, jax.config.<flag> = ..., JAX_*/XLA_* environment variables)",
+             m.relpath, key="global-jax-config", detail="; ".join(hits[:4]),
+             necessary_for="eager, jit and vmapped evaluation agree (threefry keys are vmap-invariant, rbg keys are not); results depend only on explicit arguments")
+    # positive control: the matcher must see the construct
+    ctrl = ast.parse("import jax\njax.config.update('jax_default_prng_impl', 'rbg')\nimport os\nos.environ['XLA_FLAGS'] = 'x'\n")
+
+    class _M:
+        pass
+    from ..model import Program as _P
+    import os as _os
+    ctrl_prog = _P(sources={"lerax/__init__.py": "import jax\njax.config.update('jax_default_prng_impl', 'rbg')\nimport os\nos.environ['XLA_FLAGS'] = 'x'\n"},
+                   file_filter=lambda rel: rel.replace(_os.sep, "/") == "lerax/__init__.py")
+    ch = global_config_hits(ctrl_prog, ctrl_prog.modules["lerax"])
+    if len(ch) < 2:
+        raise AnalysisError(f"C12.5 positive control failed: {ch}")
+    s.control(f"{rule} positive control matched {len(ch)} constructs in a synthetic module")
